@@ -33,6 +33,9 @@ impl Prop for C02 {
     fn strategy(&self, tier: Tier) -> BoxedStrategy<HistCase> {
         gen::hist(tier.pick(20, 40), &[0, 0, 1, 2])
     }
+    fn extra_evidence(&self, root: &std::path::Path) -> serde_json::Value {
+        crate::engine::fuzz_stats(root, "graph_history")
+    }
     fn random_cases(&self, tier: Tier) -> u32 {
         tier.pick(60_000, 600_000)
     }
